@@ -38,12 +38,19 @@ type muxCall struct {
 	err      error
 	resp     []byte
 	sendFault string // "", "write-err", "flush-err", "write-block", "flush-block"
+	n503     int
 	plan     string
 	seen     bool
 	deliveries []*muxDelivery
+	deliveries503 []*muxDelivery
 }
 
 type muxState struct {
+	kind   string // adapter | nats
+	send   func(d *muxDelivery, opid string, frame []byte) // hand a response frame to the wire now
+	send503 func(d *muxDelivery, subjectSuffix string)
+	byDseq map[string]*muxDelivery
+	pending503 map[string][]*muxDelivery
 	rc     *RunCtx
 	s      *simrt.Sim
 	calls  []*muxCall
@@ -93,56 +100,107 @@ func muxHarness(rc *RunCtx) {
 		rc.Nontrivial = true
 	}
 
-	st := NewSimStream(rc, "c0")
+	kind := "adapter"
+	if rc.Params["transport"] != "" {
+		kind = rc.Params["transport"]
+	} else if tp.Intn("cfg", 3) == 0 {
+		kind = "nats"
+	}
+	m.kind = kind
+	m.byDseq = map[string]*muxDelivery{}
+	m.pending503 = map[string][]*muxDelivery{}
+	rc.Sample["transport"] = kind
+	var st *SimStream
+	var b *SimBroker
+	var tr frugal.FTransport
 	var blockedWrites int
-	tr := frugal.NewAdapterTransport(st)
-	st.OnFrame = func(frame []byte) { m.onRequest(st, frame) }
-	st.OnDelivered = func(seq int) {
-		if d := m.bySeq[seq]; d != nil {
-			d.deliveredAt = s.Now()
-			d.deliveredStep = s.Step
-		}
-	}
-	// per-call send faults are decided when the call is created; the stream
-	// consults the call by decoding the tag of what is being written
-	st.WriteFault = func(i int, p []byte) (error, bool) {
-		f, err := DecodeFrame(p)
-		if err != nil {
-			return nil, false
-		}
-		c := m.byTag[f.Headers["tag"]]
-		if c == nil {
-			return nil, false
-		}
-		switch c.sendFault {
-		case "write-err":
-			rc.Fault("write-error")
-			return thrift.NewTTransportException(thrift.UNKNOWN_TRANSPORT_EXCEPTION, "write: broken pipe"), false
-		case "write-block":
-			rc.Fault("write-blocks-forever")
-			blockedWrites++
-			return nil, true
-		}
-		return nil, false
-	}
 	var lastWritten *muxCall
-	st.FlushFault = func(i int) (error, bool) {
-		c := lastWritten
-		if c == nil {
+	const inbox = "_INBOX.cli"
+	if kind == "adapter" {
+		st = NewSimStream(rc, "c0")
+		tr = frugal.NewAdapterTransport(st)
+		st.OnFrame = func(frame []byte) { m.onRequest(frame) }
+		st.OnDelivered = func(seq int) {
+			if d := m.bySeq[seq]; d != nil {
+				d.deliveredAt = s.Now()
+				d.deliveredStep = s.Step
+			}
+		}
+		m.send = func(d *muxDelivery, opid string, frame []byte) {
+			seq := st.PeerWrite(frame)
+			m.bySeq[seq] = d
+		}
+		// per-call send faults are decided when the call is created; the stream
+		// consults the call by decoding the tag of what is being written
+		st.WriteFault = func(i int, p []byte) (error, bool) {
+			f, err := DecodeFrame(p)
+			if err != nil {
+				return nil, false
+			}
+			c := m.byTag[f.Headers["tag"]]
+			if c == nil {
+				return nil, false
+			}
+			switch c.sendFault {
+			case "write-err":
+				rc.Fault("write-error")
+				return thrift.NewTTransportException(thrift.UNKNOWN_TRANSPORT_EXCEPTION, "write: broken pipe"), false
+			case "write-block":
+				rc.Fault("write-blocks-forever")
+				blockedWrites++
+				return nil, true
+			}
 			return nil, false
 		}
-		switch c.sendFault {
-		case "flush-err":
-			rc.Fault("flush-error")
-			return thrift.NewTTransportException(thrift.UNKNOWN_TRANSPORT_EXCEPTION, "flush: broken pipe"), false
-		case "flush-block":
-			rc.Fault("flush-blocks-forever")
-			blockedWrites++
-			return nil, true
+		st.FlushFault = func(i int) (error, bool) {
+			c := lastWritten
+			if c == nil {
+				return nil, false
+			}
+			switch c.sendFault {
+			case "flush-err":
+				rc.Fault("flush-error")
+				return thrift.NewTTransportException(thrift.UNKNOWN_TRANSPORT_EXCEPTION, "flush: broken pipe"), false
+			case "flush-block":
+				rc.Fault("flush-blocks-forever")
+				blockedWrites++
+				return nil, true
+			}
+			return nil, false
 		}
-		return nil, false
+	} else {
+		b = NewSimBroker(rc)
+		b.OnPublish = func(c *BrokerConn, subject, reply string, hdr, data []byte) bool {
+			if subject == "svc" {
+				m.onRequest(data)
+				return true
+			}
+			return false
+		}
+		b.OnDeliver = func(c *BrokerConn, subject string, data []byte) {
+			if len(data) == 0 {
+				q := m.pending503[subject]
+				if len(q) > 0 {
+					q[0].deliveredAt, q[0].deliveredStep = s.Now(), s.Step
+					m.pending503[subject] = q[1:]
+				}
+				return
+			}
+			if f, err := DecodeFrame(data); err == nil {
+				if d := m.byDseq[f.Headers["dseq"]]; d != nil {
+					d.deliveredAt, d.deliveredStep = s.Now(), s.Step
+				}
+			}
+		}
+		m.send = func(d *muxDelivery, opid string, frame []byte) {
+			b.Route(inbox+"."+opid, "", nil, frame)
+		}
+		m.send503 = func(d *muxDelivery, suffix string) {
+			subj := inbox + "." + suffix
+			m.pending503[subj] = append(m.pending503[subj], d)
+			b.Route(subj, "", []byte("NATS/1.0 503\r\n\r\n"), nil)
+		}
 	}
-	_ = lastWritten
 
 	finished := false
 	var infra string
@@ -171,6 +229,15 @@ func muxHarness(rc *RunCtx) {
 	}
 
 	s.GoRoot("main", "main", func() {
+		if kind == "nats" {
+			nc, err := b.Connect("client")
+			if err != nil {
+				infra = "connect: " + err.Error()
+				finished = true
+				return
+			}
+			tr = frugal.NewFNatsTransport(nc, "svc", inbox)
+		}
 		if err := tr.Open(); err != nil {
 			infra = "open: " + err.Error()
 			finished = true
@@ -186,7 +253,7 @@ func muxHarness(rc *RunCtx) {
 				if rc.Prop == "C13" && tp.Bool("cfg", 1, 5) {
 					c.oneway = true
 				}
-				if tp.Pick("cfg", 100, nil) < m.prof.sendFaultPct {
+				if kind == "adapter" && tp.Pick("cfg", 100, nil) < m.prof.sendFaultPct {
 					c.sendFault = []string{"write-err", "write-block", "flush-err", "flush-block"}[tp.Intn("cfg", 4)]
 					// flush faults need to know which call is being flushed; with
 					// concurrent senders that is ambiguous, so only the write
@@ -223,20 +290,27 @@ func muxHarness(rc *RunCtx) {
 		finished = true
 	})
 
-	s.Run(func() bool { return finished })
+	s.Run(func() bool { return finished && (b == nil || b.Pending() == 0) })
 
 	// ---- oracles ----
 	if infra != "" {
 		rc.Violate("INFRA", "setup", infra, infra)
 	}
-	m.check(tr, st, canary, finished, blockedWrites)
+	if tr != nil {
+		m.check(tr, canary, finished, blockedWrites)
+	}
 	s.Shutdown()
-	st.Kill()
+	if st != nil {
+		st.Kill()
+	}
+	if b != nil {
+		b.Kill()
+	}
 }
 
 // onRequest runs on the sender's task each time the system under test has
 // written a complete request frame.
-func (m *muxState) onRequest(st *SimStream, frame []byte) {
+func (m *muxState) onRequest(frame []byte) {
 	f, err := DecodeFrame(frame)
 	if err != nil {
 		m.rc.Violate("INFRA", "peer-decode", "request", err.Error())
@@ -248,7 +322,7 @@ func (m *muxState) onRequest(st *SimStream, frame []byte) {
 		return
 	}
 	if f.Headers["_opid"] != c.opid {
-		m.rc.Violate("C01", "request-opid-mismatch", "adapter", fmt.Sprintf("call %d sent opid %q, context has %q", c.id, f.Headers["_opid"], c.opid))
+		m.rc.Violate("C01", "request-opid-mismatch", m.kind, fmt.Sprintf("call %d sent opid %q, context has %q", c.id, f.Headers["_opid"], c.opid))
 	}
 	c.seen = true
 	if c.oneway {
@@ -261,11 +335,12 @@ func (m *muxState) onRequest(st *SimStream, frame []byte) {
 		if owner != nil {
 			owner.deliveries = append(owner.deliveries, d)
 		}
-		body := EncodeFrame(map[string]string{"_opid": opid, "_cid": "x", "tag": tag}, []byte("resp:"+tag))
+		dseq := strconv.Itoa(m.evN)
+		m.byDseq[dseq] = d
+		body := EncodeFrame(map[string]string{"_opid": opid, "_cid": "x", "tag": tag, "dseq": dseq}, []byte("resp:"+tag))
 		m.s.AddEvent(fmt.Sprintf("peer:%03d:%s", m.evN, kind), delay, func() {
 			d.handedStep = m.s.Step
-			seq := st.PeerWrite(body)
-			m.bySeq[seq] = d
+			m.send(d, opid, body)
 		})
 	}
 	if c.plan == "canary" {
@@ -288,7 +363,44 @@ func (m *muxState) onRequest(st *SimStream, frame []byte) {
 		}
 		return 0
 	})
+	if m.kind == "nats" && k != 0 && tp.Intn("peer", 3) == 0 {
+		k = 6 + tp.Intn("peer", 3)
+	}
+	status503 := func(kind, suffix string, owner *muxCall, delay time.Duration) {
+		m.evN++
+		d := &muxDelivery{kind: kind, deliveredAt: -1}
+		if owner != nil {
+			owner.deliveries503 = append(owner.deliveries503, d)
+		}
+		m.s.AddEvent(fmt.Sprintf("peer:%03d:%s", m.evN, kind), delay, func() {
+			d.handedStep = m.s.Step
+			m.send503(d, suffix)
+		})
+	}
 	switch k {
+	case 6:
+		c.plan = "503"
+		m.rc.Fault("status-503-for-own-request")
+		status503("503", c.opid, c, jitter())
+	case 7:
+		c.plan = "once+503-on-garbage-subject"
+		m.rc.Fault("status-503-on-garbage-subject")
+		status503("503-garbage", "not-a-number", nil, jitter())
+		respond("answer", c.opid, c.tag, jitter(), c)
+	case 8:
+		c.plan = "once+503-for-other"
+		respond("answer", c.opid, c.tag, jitter(), c)
+		var pend []*muxCall
+		for _, o := range m.calls {
+			if o != c && o.seen && !o.returned && !o.oneway {
+				pend = append(pend, o)
+			}
+		}
+		if len(pend) > 0 {
+			o := pend[tp.Intn("peer", len(pend))]
+			m.rc.Fault("status-503-on-another-pending-request")
+			status503("503-other", o.opid, o, jitter())
+		}
 	case 0:
 		c.plan = "once"
 		respond("answer", c.opid, c.tag, jitter(), c)
@@ -334,19 +446,24 @@ func (m *muxState) onRequest(st *SimStream, frame []byte) {
 	}
 }
 
-func (m *muxState) check(tr frugal.FTransport, st *SimStream, canary *muxCall, finished bool, blockedWrites int) {
+func isServiceNotAvailable(err error) bool {
+	te, ok := err.(thrift.TTransportException)
+	return ok && te.TypeId() == frugal.TRANSPORT_EXCEPTION_SERVICE_NOT_AVAILABLE
+}
+
+func (m *muxState) check(tr frugal.FTransport, canary *muxCall, finished bool, blockedWrites int) {
 	rc := m.rc
 	const allowance = time.Millisecond
 	for _, c := range m.calls {
 		if !c.returned {
 			if c.invokeStep > 0 || c.invokeAt > 0 || c.seen {
-				rc.Violate("C13", "call-never-returned", "adapter", fmt.Sprintf("call %d (plan %s, fault %s, timeout %v) did not return", c.id, c.plan, c.sendFault, c.timeout))
+				rc.Violate("C13", "call-never-returned", m.kind, fmt.Sprintf("call %d (plan %s, fault %s, timeout %v) did not return", c.id, c.plan, c.sendFault, c.timeout))
 			}
 			continue
 		}
 		el := c.returnAt - c.invokeAt
 		if el > c.timeout+allowance {
-			rc.Violate("C13", "late-return", "adapter", fmt.Sprintf("call %d returned after %v, timeout %v (err=%v)", c.id, el, c.timeout, c.err))
+			rc.Violate("C13", "late-return", m.kind, fmt.Sprintf("call %d returned after %v, timeout %v (err=%v)", c.id, el, c.timeout, c.err))
 		}
 		// was a response for this call fully readable strictly before its deadline?
 		var inTime, beforeReturn bool
@@ -361,38 +478,53 @@ func (m *muxState) check(tr frugal.FTransport, st *SimStream, canary *muxCall, f
 		switch {
 		case c.oneway:
 			if c.err != nil && !isTimedOut(c.err) && c.sendFault == "" {
-				rc.Violate("C13", "oneway-unexpected-error", "adapter", fmt.Sprintf("call %d: %v", c.id, c.err))
+				rc.Violate("C13", "oneway-unexpected-error", m.kind, fmt.Sprintf("call %d: %v", c.id, c.err))
 			}
 			if isTimedOut(c.err) && el < c.timeout {
-				rc.Violate("C13", "early-timeout", "adapter", fmt.Sprintf("oneway %d timed out after %v < %v", c.id, el, c.timeout))
+				rc.Violate("C13", "early-timeout", m.kind, fmt.Sprintf("oneway %d timed out after %v < %v", c.id, el, c.timeout))
 			}
 		case c.err == nil:
 			f, err := DecodeBody(c.resp)
 			if err != nil {
-				rc.Violate("C01", "undecodable-response", "adapter", fmt.Sprintf("call %d: %v", c.id, err))
+				rc.Violate("C01", "undecodable-response", m.kind, fmt.Sprintf("call %d: %v", c.id, err))
 				break
 			}
 			if f.Headers["_opid"] != c.opid || f.Headers["tag"] != c.tag || string(f.Payload) != "resp:"+c.tag {
-				rc.Violate("C01", "wrong-response", "adapter", fmt.Sprintf("call %d (opid %s tag %s) completed with frame opid=%s tag=%s payload=%q",
+				rc.Violate("C01", "wrong-response", m.kind, fmt.Sprintf("call %d (opid %s tag %s) completed with frame opid=%s tag=%s payload=%q",
 					c.id, c.opid, c.tag, f.Headers["_opid"], f.Headers["tag"], f.Payload))
 			}
 			if !beforeReturn {
-				rc.Violate("C01", "response-from-nowhere", "adapter", fmt.Sprintf("call %d succeeded but no frame for it had been delivered", c.id))
+				rc.Violate("C01", "response-from-nowhere", m.kind, fmt.Sprintf("call %d succeeded but no frame for it had been delivered", c.id))
+			}
+		case isServiceNotAvailable(c.err):
+			got := false
+			for _, d := range c.deliveries503 {
+				if d.deliveredAt >= 0 && d.deliveredStep <= c.returnStep {
+					got = true
+				}
+			}
+			if !got {
+				rc.Violate("C01", "service-not-available-from-nowhere", m.kind, fmt.Sprintf("call %d failed with SERVICE_NOT_AVAILABLE but no 503 for its reply subject had been delivered", c.id))
 			}
 		case isTimedOut(c.err):
+			for _, d := range c.deliveries503 {
+				if d.deliveredAt >= 0 && d.deliveredAt < c.invokeAt+c.timeout {
+					inTime = true
+				}
+			}
 			if el < c.timeout {
-				rc.Violate("C13", "early-timeout", "adapter", fmt.Sprintf("call %d timed out after %v < %v", c.id, el, c.timeout))
+				rc.Violate("C13", "early-timeout", m.kind, fmt.Sprintf("call %d timed out after %v < %v", c.id, el, c.timeout))
 			}
 			if inTime {
-				key := "adapter"
+				key := m.kind
 				if c == canary {
-					key = "adapter canary"
+					key = m.kind + " canary"
 				}
 				rc.Violate("C06", "response-not-delivered", key, fmt.Sprintf("call %d (plan %s): its response was readable %v before the deadline, yet the call timed out", c.id, c.plan, c.timeout))
 			}
 		default:
 			if c.sendFault == "" {
-				rc.Violate("C01", "unexpected-error", "adapter", fmt.Sprintf("call %d: %v", c.id, c.err))
+				rc.Violate("C01", "unexpected-error", m.kind, fmt.Sprintf("call %d: %v", c.id, c.err))
 			}
 		}
 		if c.err != nil && !isTimedOut(c.err) && c.sendFault == "" && c.oneway == false && c != canary {
@@ -400,15 +532,15 @@ func (m *muxState) check(tr frugal.FTransport, st *SimStream, canary *muxCall, f
 		}
 	}
 	if n := frugal.SimRegistryLen(tr); n > 0 {
-		rc.Violate("C13", "registration-left-behind", "adapter", fmt.Sprintf("%d registrations after all calls returned", n))
+		rc.Violate("C13", "registration-left-behind", m.kind, fmt.Sprintf("%d registrations after all calls returned", n))
 	} else if n < 0 {
-		rc.Violate("INFRA", "registry-unobservable", "adapter", "")
+		rc.Violate("INFRA", "registry-unobservable", m.kind, "")
 	}
 	if !finished {
-		rc.Violate("C13", "workload-stuck", "adapter", "callers did not all return within the simulated horizon")
+		rc.Violate("C13", "workload-stuck", m.kind, "callers did not all return within the simulated horizon")
 	}
 	if canary != nil && canary.returned && canary.err != nil && !isTimedOut(canary.err) {
-		rc.Violate("C06", "canary-failed", "adapter", fmt.Sprintf("canary: %v", canary.err))
+		rc.Violate("C06", "canary-failed", m.kind, fmt.Sprintf("canary: %v", canary.err))
 	}
 	// wedged tasks: after Close every task of the system under test must be
 	// gone; the only legitimate leftovers are senders parked behind an
@@ -425,10 +557,6 @@ func (m *muxState) check(tr frugal.FTransport, st *SimStream, canary *muxCall, f
 	sort.Strings(wedged)
 	for _, w := range wedged {
 		rc.Violate("C06", "wedged-task", w, "task still blocked at "+w+" after all callers returned and the transport was closed")
-	}
-	if pend := st.PendingInbound(); pend > 0 && finished && len(wedged) == 0 {
-		// frames unread at Close are fine (transport closed); nothing to check
-		_ = pend
 	}
 	_ = blockedWrites
 }
